@@ -37,7 +37,14 @@ RULE = ("part 'memory': 2-4 threads run short op lists (write with the thread's 
         "FileDestinations with different json_default functions, one thread each, LINE events on eliot/json.py too, all 1-preemption schedules: every "
         "line is encoded by its own destination's default. part 'filestress': 8-16 OS-scheduled threads (switch interval 1e-6) write to one real file (buffered, unbuffered, text): "
         "every line one JSON object, multiset of (thread, seq) == written (per-thread order additionally for binary files). non-trivial = schedule whose "
-        "preemption fired inside MemoryLogger/FileDestination code; distinct by interleaving hash")
+        "preemption fired inside MemoryLogger/FileDestination code; distinct by interleaving hash. part 'rawthreads': the concurrent callers are threads "
+        "started with _thread.start_new_thread (unknown to the threading module, like threads of a C extension or an embedding host) while the main "
+        "thread idles: for every ordered pair of write / write_traceback / reset / validate / serialize / flush_tracebacks and every LINE event k in "
+        "eliot/_output.py of A's call, A is parked after k (harness-side sys.settrace hook) and B makes its call; A goes on when B has returned or "
+        "sits in a lock acquire; afterwards the same final-state oracle (pairing by writer tag, nothing lost or duplicated unless reset() was called, "
+        "traceback list consistent with messages and flush results, serialize() aligned). part 'pipestress': one FileDestination on the write end of "
+        "an OS pipe (buffered with lines several times the pipe's capacity; unbuffered with lines below PIPE_BUF), 3-5 threads, the reader starts "
+        "draining in small pieces once the pipe is full: every line read is one complete message with its own padding, each (thread, seq) exactly once, per-thread order kept")
 ASSUMPTIONS = ["switch points are statement boundaries and blocking primitives (CPython granularity)"]
 EXHAUSTIVE_NOTE = "all one-preemption schedules (every priority order x every statement boundary) of each generated op list"
 CASE_TIMEOUT = 900
@@ -56,6 +63,9 @@ def plan(tier, seed):
     specs += [{"part": "lockorder", "seed": seed, "i": i, "tier": tier} for i in range(2 if tier == "quick" else 4)]
     specs += [{"part": "twodefaults", "seed": seed, "i": 0, "tier": tier, "interpreter": "no_orjson"}]
     specs += [{"part": "filestress", "seed": seed, "i": i, "tier": tier} for i in range(6 if tier == "quick" else 36)]
+    nraw = 4 if tier == "quick" else 11
+    specs += [{"part": "rawthreads", "seed": seed, "i": j, "tier": tier, "chunk": j, "nchunks": nraw} for j in range(nraw)]
+    specs += [{"part": "pipestress", "seed": seed, "i": i, "tier": tier} for i in range(3 if tier == "quick" else 9)]
     return specs
 
 
@@ -731,10 +741,441 @@ def run_filestress(spec, res):
         res["violations"].append({"msg": problems[0], "mech": None, "detail": {"part": "filestress", "mode": mode, "threads": nthreads, "problems": problems[:5]}})
 
 
+# --------------------------------------------------------------------------- threads the threading module does not know about
+
+
+RAW_OPS = ["write", "tb", "reset", "validate", "serialize", "flush"]
+
+
+def raw_scenarios():
+    """(op of the parked thread A, op of thread B). validate() serializes the stored messages in place, so a scenario has at most
+    one validate() and then no traceback messages (see run_memory)."""
+    out = []
+    for a in RAW_OPS:
+        for b in RAW_OPS:
+            if (a, b).count("validate") > 1 or ("validate" in (a, b) and "tb" in (a, b)):
+                continue
+            out.append((a, b))
+    return out
+
+
+def _blocked_on_a_lock(frame):
+    # the innermost Python frame of a thread that sits in a C-level lock acquire made through the scheduler-aware lock class
+    # (which is what code inside the eliot package gets from threading.Lock() in this process)
+    return frame.f_code is sched.SchedLock._acquire_real.__code__
+
+
+def raw_run(ops, prep, k):
+    """ops[0] is run by raw thread A (started with _thread.start_new_thread, so threading.active_count() and threading.enumerate()
+    do not see it), which is parked by a harness-side sys.settrace hook after its k-th LINE event in eliot/_output.py (k == 0:
+    never, the LINE events are just counted); while it is parked the other raw threads run ops[1:]. A goes on when the others have
+    finished or are all blocked acquiring a lock. The main thread idles. Returns (info, problems)."""
+    import _thread
+    import time
+    logger = MemoryLogger()
+    MAIN = 9
+    tags = list(range(len(ops))) + [MAIN]
+    sers = {t: make_serializer(t) for t in tags}
+    ser_tag = {id(s_): t for t, s_ in sers.items()}
+    wrote = {t: [] for t in tags}
+    seqs = {t: 0 for t in tags}
+    tbs = {t: 0 for t in tags}
+    results = []
+    errors = []
+    info = {"lines": 0, "parked": False, "parked_at": None, "others_finished_while_parked": False, "others_blocked_on_a_lock": False,
+            "inside_memorylogger_method": False, "park_timeout": False, "threads_known_to_threading": None}
+    out_file = _output.__file__
+
+    def do(op, t):
+        if op == "write":
+            q = seqs[t]
+            seqs[t] += 1
+            m = {"tag": t, "seq": q, "b": q, "message_type": "w%d" % t, "task_uuid": "u", "task_level": [1], "timestamp": 1.0}
+            logger.write(m, sers[t])
+            wrote[t].append(q)
+        elif op == "tb":
+            try:
+                raise Flushable("t%d" % t)
+            except Flushable:
+                write_traceback(logger)
+            tbs[t] += 1
+        elif op == "validate":
+            logger.validate()
+        elif op == "serialize":
+            results.append(("serialize", logger.serialize()))
+        elif op == "flush":
+            results.append(("flush", logger.flush_tracebacks(Flushable)))
+        else:
+            logger.reset()
+
+    for op in prep:
+        do(op, MAIN)
+
+    others = [{"op": op, "tag": i + 1, "ident": None, "done": False, "go": _thread.allocate_lock(), "fin": _thread.allocate_lock()}
+              for i, op in enumerate(ops[1:])]
+    a_fin = _thread.allocate_lock()
+    a_fin.acquire()
+    for o in others:
+        o["go"].acquire()
+        o["fin"].acquire()
+
+    def park(frame):
+        info["parked"] = True
+        info["parked_at"] = "%s:%d" % (os.path.basename(frame.f_code.co_filename), frame.f_lineno)
+        f = frame
+        while f is not None:
+            if f.f_code.co_filename == out_file and getattr(f.f_code, "co_qualname", "").startswith("MemoryLogger."):
+                info["inside_memorylogger_method"] = True
+            f = f.f_back
+        info["threads_known_to_threading"] = threading.active_count()
+        for o in others:
+            o["go"].release()
+        deadline = time.monotonic() + 2.0
+        stuck = 0
+        while True:
+            if all(o["done"] for o in others):
+                info["others_finished_while_parked"] = True
+                return
+            frames = sys._current_frames()
+            all_blocked = True
+            for o in others:
+                if o["done"]:
+                    continue
+                fr = frames.get(o["ident"])
+                if fr is None or not _blocked_on_a_lock(fr):
+                    all_blocked = False
+            del frames
+            stuck = stuck + 1 if all_blocked else 0
+            if stuck >= 3:
+                # the others wait for a lock (late arrivals are harmless: they then simply run after or alongside A)
+                info["others_blocked_on_a_lock"] = True
+                return
+            if time.monotonic() > deadline:
+                info["park_timeout"] = True
+                return
+            time.sleep(0.0005)
+
+    def local_tracer(frame, event, arg):
+        if event == "line":
+            info["lines"] += 1
+            if info["lines"] == k:
+                park(frame)
+        return local_tracer
+
+    def global_tracer(frame, event, arg):
+        if frame.f_code.co_filename == out_file:
+            return local_tracer
+        return None
+
+    def thread_a():
+        try:
+            sys.settrace(global_tracer)
+            try:
+                do(ops[0], 0)
+            finally:
+                sys.settrace(None)
+        except BaseException as e:
+            errors.append("thread A (%s): %r" % (ops[0], e))
+        finally:
+            a_fin.release()
+
+    def thread_o(o):
+        try:
+            o["ident"] = _thread.get_ident()
+            o["go"].acquire()
+            if info["parked"]:
+                do(o["op"], o["tag"])
+        except BaseException as e:
+            errors.append("thread %d (%s): %r" % (o["tag"], o["op"], e))
+        finally:
+            o["done"] = True
+            o["fin"].release()
+
+    for o in others:
+        _thread.start_new_thread(thread_o, (o,))
+    t0 = time.monotonic()
+    while any(o["ident"] is None for o in others) and time.monotonic() - t0 < 20:
+        time.sleep(0.0005)
+    _thread.start_new_thread(thread_a, ())
+    finished = a_fin.acquire(True, 60)
+    if not info["parked"]:
+        for o in others:
+            o["go"].release()  # k == 0 or never reached: the others just end
+    for o in others:
+        finished = o["fin"].acquire(True, 60) and finished
+    if not finished:
+        return info, None  # inconclusive: a raw thread did not come back
+    problems = list(errors)
+    # quiet again: two more writes and a serialize() by the main thread
+    try:
+        do("write", MAIN)
+        do("write", MAIN)
+        final = logger.serialize()
+    except BaseException as e:
+        problems.append("after the threads ended a MemoryLogger call raised %r" % (e,))
+        final = None
+    reset_used = "reset" in ops
+    msgs, ss = logger.messages, logger.serializers
+    tb_ser = eliot._traceback.TRACEBACK_MESSAGE._serializer
+    if len(msgs) != len(ss):
+        problems.append("finally %d messages but %d serializers" % (len(msgs), len(ss)))
+    if len(set(id(m) for m in msgs)) != len(msgs):
+        problems.append("a message is recorded twice")
+    per = {}
+    tb_in_msgs = []
+    for m, s_ in zip(msgs, ss):
+        if "tag" in m:
+            if ser_tag.get(id(s_)) != m["tag"]:
+                problems.append("message of thread %s is paired with %s" % (
+                    m["tag"], "the serializer of thread %s" % ser_tag[id(s_)] if id(s_) in ser_tag else "a traceback's serializer"))
+                break
+            q = m["seq"]
+            if isinstance(q, str):  # serialized in place by validate()
+                q = int(q.rsplit(":", 1)[1])
+            per.setdefault(m["tag"], []).append(q)
+        else:
+            tb_in_msgs.append(id(m))
+            if s_ is not tb_ser:
+                problems.append("a traceback message is paired with the serializer of thread %s" % (ser_tag.get(id(s_)),))
+                break
+    for t in tags:
+        got = per.get(t, [])
+        if reset_used:
+            if got and got != wrote[t][len(wrote[t]) - len(got):]:
+                problems.append("thread %d wrote %s, logger retains %s (not a suffix: lost, duplicated or re-ordered)" % (t, wrote[t], got))
+        elif got != wrote[t]:
+            problems.append("thread %d wrote %s and nobody called reset(), logger retains %s" % (t, wrote[t], got))
+    listed = [id(m) for m in logger.tracebackMessages]
+    flushed = [id(m) for kind, r in results if kind == "flush" for m in r]
+    if len(set(listed)) != len(listed):
+        problems.append("a traceback is listed twice in tracebackMessages")
+    if not set(listed) <= set(tb_in_msgs):
+        problems.append("finally a tracebackMessages entry is not in messages")
+    if len(set(flushed)) != len(flushed):
+        problems.append("a traceback message was returned by two flush_tracebacks calls")
+    if set(flushed) & set(listed):
+        problems.append("a flushed traceback is still listed as unflushed")
+    if not reset_used:
+        if len(tb_in_msgs) != sum(tbs.values()):
+            problems.append("%d tracebacks written and nobody called reset(), %d in messages" % (sum(tbs.values()), len(tb_in_msgs)))
+        if set(listed) | set(flushed) != set(tb_in_msgs):
+            problems.append("%d traceback messages recorded, nobody called reset(), but only %d are listed as unflushed or were returned by "
+                            "flush_tracebacks" % (len(tb_in_msgs), len(set(listed) | set(flushed))))
+    for kind, r in results + ([("serialize", final)] if final is not None else []):
+        if kind != "serialize":
+            continue
+        for d in r:
+            if "tag" in d and (not str(d["seq"]).startswith("t%d:" % d["tag"]) or d["message_type"] != "w%d" % d["tag"]):
+                problems.append("serialize() applied the wrong serializer: %r" % ({k_: d.get(k_) for k_ in ("tag", "seq", "b", "message_type")},))
+                break
+            if "tag" in d and str(d["seq"]).count("t%d:" % d["tag"]) != str(d.get("b")).count("t%d:" % d["tag"]):
+                problems.append("serialize() returned a torn message (fields serialized a different number of times): %r" % (
+                    {k_: d.get(k_) for k_ in ("tag", "seq", "b")},))
+                break
+    if final is not None and len(final) != len(msgs):
+        problems.append("serialize() returned %d messages, the logger holds %d" % (len(final), len(msgs)))
+    return info, problems
+
+
+def run_rawthreads(spec, res):
+    """Concurrent callers that are NOT threading.Thread objects (threads of a C extension or of an embedding host look like this):
+    for every line k of the MemoryLogger call made by raw thread A, A is parked there and raw thread B (thorough: also C) makes
+    its call; the main thread idles."""
+    rng = random.Random("%s:C16:raw:%d" % (spec["seed"], spec["i"]))
+    c = res["counters"]
+    scen = raw_scenarios()
+    mine = [sc for j, sc in enumerate(scen) if j % spec["nchunks"] == spec["chunk"]]
+    for a, b in mine:
+        plain = "validate" in (a, b)
+        preps = [["write", "write"] if plain else ["write", "tb", "write"]]
+        if spec["tier"] != "quick":
+            preps += [[], ["write"] * 3 if plain else ["tb", "write", "tb"]]
+        for prep in preps:
+            variants = [(a, b)]
+            if spec["tier"] != "quick":
+                third = [o for o in RAW_OPS if not ((o == "validate" and ("validate" in (a, b) or "tb" in (a, b))) or (o == "tb" and plain))]
+                variants.append((a, b, rng.choice(third)))
+            for ops in variants:
+                if "validate" in ops and "tb" in prep:
+                    continue
+                info, problems = raw_run(ops, prep, 0)
+                if problems is None:
+                    res["inconclusive"] = "rawthreads: a thread did not finish"
+                    return
+                n = info["lines"]
+                c["raw_thread_line_events_counted"] = c.get("raw_thread_line_events_counted", 0) + n
+                for k in range(1, n + 1):
+                    info, problems = raw_run(ops, prep, k)
+                    res["evals"] += 1
+                    if problems is None:
+                        res["inconclusive"] = "rawthreads: a thread did not finish"
+                        return
+                    if not info["parked"]:
+                        continue
+                    c["raw_thread_parks"] = c.get("raw_thread_parks", 0) + 1
+                    for key in ("others_finished_while_parked", "others_blocked_on_a_lock", "inside_memorylogger_method", "park_timeout"):
+                        if info[key]:
+                            c["raw_parks_" + key] = c.get("raw_parks_" + key, 0) + 1
+                    if info["inside_memorylogger_method"]:
+                        res["nontrivial"].append(h(["raw", ops, prep, k]))
+                        res["sets"]["preemption_lines"].append("raw " + info["parked_at"])
+                    if problems and len(res["violations"]) < 3:
+                        res["violations"].append({"msg": "raw threads: " + problems[0], "mech": None,
+                                                  "detail": {"part": "rawthreads", "ops": list(ops), "prep": prep, "parked_after_line_event": k,
+                                                             "info": info, "problems": problems[:5]}})
+                        if len(res["violations"]) >= 3:
+                            return
+    if spec["chunk"] == 0 and mine:
+        res["sample"] = {"part": "rawthreads", "scenarios": len(scen), "example": {"A": mine[0][0], "B": mine[0][1]}}
+
+
+# --------------------------------------------------------------------------- file destination on a pipe that is full
+
+
+def run_pipestress(spec, res):
+    """One FileDestination on the write end of an OS pipe (binary, buffered or unbuffered), 3-5 OS-scheduled threads writing while
+    the reader thread starts to drain (in small pieces) only once the pipe is full, so that the writers block in the middle of
+    their lines. Unbuffered: every line fits into PIPE_BUF (one write(2) each, which POSIX makes atomic on a pipe); buffered:
+    lines several times the pipe's capacity."""
+    import array
+    import fcntl
+    import select
+    import termios
+    import time
+    rng = random.Random("%s:C16:pipe:%d" % (spec["seed"], spec["i"]))
+    c = res["counters"]
+    rounds = 6 if spec["tier"] == "quick" else 40
+    pipe_buf = getattr(select, "PIPE_BUF", 512)
+    for rnd in range(rounds):
+        unbuffered = (spec["i"] + rnd) % 3 == 2
+        nthreads = rng.choice([3, 3, 4, 5])
+        per = rng.choice([2, 3]) if not unbuffered else rng.choice([4, 8])
+        rfd, wfd = os.pipe()
+        cap = 65536
+        try:
+            if (rng.random() < 0.75 or unbuffered) and hasattr(fcntl, "F_SETPIPE_SZ"):
+                fcntl.fcntl(wfd, fcntl.F_SETPIPE_SZ, 4096)
+            if hasattr(fcntl, "F_GETPIPE_SZ"):
+                cap = fcntl.fcntl(wfd, fcntl.F_GETPIPE_SZ)
+        except OSError:
+            pass
+        if unbuffered:
+            def size(t, q):
+                return (pipe_buf - 200) - 37 * ((t + q) % 5)
+            per = max(per, cap // (pipe_buf - 400) // nthreads + 2)  # more than the pipe holds
+        else:
+            big = rng.choice([3, 5, 8]) * cap if cap <= 8192 else rng.choice([2, 4]) * cap
+
+            def size(t, q, big=big):
+                return big + 1013 * ((t + 2 * q) % 4)
+        minline = min(size(t, q) for t in range(nthreads) for q in range(per))
+        f = open(wfd, "wb", buffering=0) if unbuffered else open(wfd, "wb")
+        dest = FileDestination(file=f)
+        chunks = []
+        errors = []
+        saw_full = [False]
+        stop = [False]
+
+        def reader():
+            try:
+                buf = array.array("i", [0])
+                t0 = time.monotonic()
+                while time.monotonic() - t0 < 5.0 and not stop[0]:
+                    fcntl.ioctl(rfd, termios.FIONREAD, buf)
+                    if buf[0] > cap - minline:  # no room for another line: whoever writes now has to wait in the middle of it
+                        saw_full[0] = True
+                        break
+                    time.sleep(0.0005)
+                piece = rng.choice([512, 1024, 4096])
+                while True:
+                    b = os.read(rfd, piece)
+                    if not b:
+                        return
+                    chunks.append(b)
+            except BaseException as e:
+                errors.append("reader: %r" % (e,))
+
+        start = threading.Event()
+
+        def writer(t):
+            start.wait()
+            try:
+                for q in range(per):
+                    dest({"t": t, "seq": q, "pad": chr(97 + t) * size(t, q)})
+            except BaseException as e:
+                errors.append("writer %d raised %r" % (t, e))
+        rt = sched._real_Thread(target=reader, daemon=True)
+        ws = [sched._real_Thread(target=writer, args=(t,), daemon=True) for t in range(nthreads)]
+        rt.start()
+        for w in ws:
+            w.start()
+        start.set()
+        hung = False
+        for w in ws:
+            w.join(120)
+            hung = hung or w.is_alive()
+        if hung:
+            res["inconclusive"] = "pipestress: a writer did not come back"
+            os.close(rfd)  # the blocked writers get EPIPE
+            return
+        stop[0] = True
+        f.close()
+        rt.join(120)
+        if rt.is_alive():
+            res["inconclusive"] = "pipestress: the reader did not see the end of the pipe"
+            return
+        os.close(rfd)
+        problems = list(errors[:3])
+        data = b"".join(chunks)
+        lines = data.split(b"\n")
+        if lines[-1] != b"":
+            problems.append("the output does not end with a newline (torn tail %r)" % (lines[-1][:60],))
+        got = {}
+        for no, ln in enumerate(lines[:-1]):
+            try:
+                m = json.loads(ln.decode("utf-8"))
+                t, q, pad = m["t"], m["seq"], m["pad"]
+                if not (isinstance(t, int) and isinstance(q, int) and 0 <= t < nthreads and 0 <= q < per):
+                    raise ValueError("unknown writer/seq")
+            except Exception as e:
+                problems.append("line %d of %d is torn or merged: %r ... %r (%s)" % (no, len(lines) - 1, ln[:50], ln[-30:], str(e)[:80]))
+                break
+            if pad != chr(97 + t) * size(t, q):
+                problems.append("line %d (thread %d, seq %d) is not what was written: pad has %d characters %s, written %d" % (
+                    no, t, q, len(pad), sorted(set(pad))[:4], size(t, q)))
+                break
+            got.setdefault(t, []).append(q)
+        else:
+            for t in range(nthreads):
+                g = got.get(t, [])
+                if sorted(g) != list(range(per)):
+                    problems.append("thread %d wrote %d lines, the pipe delivered seqs %s (dropped or duplicated)" % (t, per, g))
+                elif g != list(range(per)):
+                    problems.append("thread %d's lines are all present but out of order: %s" % (t, g))
+        res["evals"] += 1
+        c["pipe_rounds"] = c.get("pipe_rounds", 0) + 1
+        c["pipe_lines_checked"] = c.get("pipe_lines_checked", 0) + nthreads * per
+        if saw_full[0]:
+            c["pipe_rounds_with_writers_blocked_on_a_full_pipe"] = c.get("pipe_rounds_with_writers_blocked_on_a_full_pipe", 0) + 1
+            res["nontrivial"].append(h(["pipe", spec["i"], rnd, unbuffered, nthreads, cap]))
+        if problems and len(res["violations"]) < 3:
+            res["violations"].append({"msg": "pipe: " + problems[0], "mech": None,
+                                      "detail": {"part": "pipestress", "unbuffered": unbuffered, "threads": nthreads, "lines_per_thread": per,
+                                                 "pipe_capacity": cap, "smallest_line": minline, "problems": problems[:5]}})
+            if len(res["violations"]) >= 3:
+                return
+
+
 def run_case(spec):
     res = {"evals": 0, "nontrivial": [], "counters": {}, "violations": [], "sample": None, "sets": {"interleavings": [], "preemption_lines": []}}
     if spec["part"] == "filestress":
         run_filestress(spec, res)
+        return res
+    if spec["part"] == "rawthreads":
+        run_rawthreads(spec, res)  # no scheduler, no sys.monitoring: the harness parks a raw thread with sys.settrace
+        return res
+    if spec["part"] == "pipestress":
+        run_pipestress(spec, res)
         return res
     if spec["part"] == "twodefaults":
         sched.instrument([_output])
@@ -765,4 +1206,8 @@ def finalize(agg, tier):
     lines = agg["sets"].get("preemption_lines", {})
     if not any(l.startswith("_output.py") for l in lines):
         return "no preemption landed inside eliot/_output.py"
+    if c.get("raw_parks_inside_memorylogger_method", 0) == 0:
+        return "no raw (non-threading) thread was parked inside a MemoryLogger method while another one called the logger"
+    if c.get("pipe_rounds_with_writers_blocked_on_a_full_pipe", 0) == 0:
+        return "no round in which the threads writing to a pipe had to wait for the reader"
     return None
